@@ -17,7 +17,7 @@ CLUSTER = {"brokers": [1, 2], "topics": {"t": {"0": 1}}, "coordinator": 2}
 LOG = [["base", 100], ["p", "k0", "v0"], ["p", "k1", "v1"], ["p", "k2", "v2"], ["p", "k3", "v3"], ["p", "k4", "v4"]]
 COMMIT_ERRS = [7, 14, 15, 16, 22, 25]
 MENU = {"err": {"8": COMMIT_ERRS, "1": [6]}, "silent": True, "drop": True, "timer_early": True, "proc_early": True,
-        "proc_fail": True, "app_early": True, "crash": 1}
+        "proc_fail": True, "app_early": True, "crash": 1, "corrupt": [1, 2]}
 MENU_NOCRASH = dict(MENU, crash=0)
 
 
